@@ -46,7 +46,7 @@ import time
 HERE = os.path.dirname(os.path.dirname(os.path.abspath(__file__)))
 if HERE not in sys.path:
     sys.path.insert(0, HERE)
-from common import run_driver, widths, DEVNAMES  # noqa: E402
+from common import run_driver, widths, DEVNAMES, device_classes  # noqa: E402
 import asmcommon as ac  # noqa: E402
 
 ID = 'C07'
@@ -540,6 +540,7 @@ def explore(ctx):
                                        detail='lean=%s python=%s' % (mo, py),
                                        replay=dict(request=ac.spp_line(t), case=['spp', t], model=mo, real=py, stream='spp')))
     ctx.note('spp: %d texts, %d disagreements, total %.1fs' % (len(ptexts), spp_bad, time.time() - t0))
+    charlit_sweep(ctx)
     for m in total['mism'][:8]:
         ctx.broken.append(dict(kind='tie', what='model and real assembler disagree on %r' % (m['case'][-1],),
                                detail='model=%s real=%s stream=%s case=%r' % (m['model'], m['real'], m['stream'], m['case']),
@@ -564,6 +565,44 @@ def explore(ctx):
     ctx.samples = total['samples'][:6]
 
 
+def charlit_sweep(ctx):
+    """Completeness of the character-literal spelling, judged from the property text alone (not from Spec.Asm, whose
+    tokeniser was written to mirror what py65 accepts): `<mnemonic> #'c'` and `#"c"` must assemble to the immediate
+    opcode followed by ord(c) for EVERY printable ASCII character c, on every device."""
+    from py65.assembler import Assembler
+    from py65.utils.addressing import AddressParser
+    classes = device_classes()
+    n = 0
+    for dev in DEVNAMES:
+        W, AW = widths(dev)
+        asm = Assembler(classes[dev](), AddressParser(maxwidth=AW))
+        for code in range(0x20, 0x7f):
+            ch = chr(code)
+            for q in "'\"":
+                for text, opc in (("LDA #%s%s%s" % (q, ch, q), 0xa9), ("cpx  #%s%s%s" % (q, ch, q), 0xe0)):
+                    n += 1
+                    try:
+                        got = list(asm.assemble(text, 0x1000))
+                        out = None if got == [opc, code] else 'returned %r' % (got,)
+                    except (SyntaxError, OverflowError, KeyError) as ex:
+                        out = 'refused (%s)' % type(ex).__name__
+                    except Exception as ex:  # noqa: B902
+                        out = 'raised %s' % type(ex).__name__
+                    if out:
+                        ctx.findings.append(dict(
+                            key=dict(aspect='charlit-refused' if out.startswith('refused') else 'charlit-wrong', ch=code),
+                            what='%s: %r (the character literal of $%02x) %s; documented encoding [%d, %d]' % (
+                                dev, text, code, out, opc, code),
+                            replay=dict(case=[dev, 0x1000, 16, [], text], charlit=code)))
+                        break
+                else:
+                    continue
+                break
+    ctx.stats['evaluations'] = ctx.stats.get('evaluations', 0)
+    ctx.stats.setdefault('extra', {})['charlit_sweep_statements'] = n
+    ctx.note('character literals: %d statements (every printable ASCII character, both quotes, all devices)' % n)
+
+
 def replay(ctx, path):
     obj = json.load(open(path))
     f = obj.get('finding')
@@ -572,6 +611,22 @@ def replay(ctx, path):
         print(json.dumps(obj, indent=1)[:3000])
         return 0
     c = rp['case']
+    if rp.get('charlit') is not None:
+        from py65.assembler import Assembler
+        from py65.utils.addressing import AddressParser
+        dev, pc, text, code = c[0], c[1], c[4], rp['charlit']
+        opc = 0xa9 if text.upper().startswith('LDA') else 0xe0
+        try:
+            got = list(Assembler(device_classes()[dev](), AddressParser(maxwidth=widths(dev)[1])).assemble(text, pc))
+        except Exception as ex:  # noqa: B902
+            got = type(ex).__name__
+        print('input    : %r on the %s at $%x' % (text, dev, pc))
+        print('real     : %r' % (got,))
+        print('documented: %r (immediate opcode, then the character code $%02x)' % ([opc, code], code))
+        if got != [opc, code]:
+            print('DIFF     : [property] the character literal of $%02x cannot be spelled' % code)
+            return 1
+        return 0
     if c[0] == 'stm':
         ln, re_ = ac.stm_line(c[1]), ac.real_stm(c[1])
         it = None
